@@ -15,7 +15,8 @@ Record world := {
   nextinc : Z;                     (* ghost *)
   btime   : Z;                     (* boot time the kernel publishes; moves with the wall clock *)
   ms      : mstate;                (* psutil: objects and module globals *)
-  ginc    : list Z                 (* ghost: incarnation each object was created for *)
+  ginc    : list Z;                (* ghost: incarnation each object was created for *)
+  denied  : list Z                 (* PIDs whose /proc/<pid>/stat cannot be read at the moment (EACCES) *)
 }.
 
 Inductive kev :=
@@ -23,7 +24,9 @@ Inductive kev :=
 | SpawnThread (pid : Z)            (* the process starts one more thread *)
 | Exit (pid : Z)                   (* terminates, stays in the table as a zombie *)
 | Reap (pid : Z)                   (* leaves the table; the PID is free again *)
-| ClockStep (d : Z).               (* the system clock is stepped: published boot time changes *)
+| ClockStep (d : Z)                (* the system clock is stepped: published boot time changes *)
+| Deny (pid : Z)                   (* /proc/<pid>/stat becomes unreadable (EACCES), whoever owns the PID *)
+| Allow (pid : Z).                 (* ... readable again *)
 
 (* EK: a kernel event; EC: a psutil call, atomic with respect to kernel events;
    ER o s ks: the signal/setter call [s] on object [o] taken apart -- the identity probe, then the kernel
@@ -35,12 +38,12 @@ Definition lookup (t : list kproc) (p : Z) : option kproc := find (fun k => kpid
 Definition view_of (w : world) : kview :=
   {| kv_stat := fun p => match lookup (table w) p with
                          | Some k => Some (kstart k, kppid k, kzomb k) | None => None end;
-     kv_ctime_ok := fun _ => true;        (* the simulated kernel never denies reading /proc/<pid>/stat *)
+     kv_ctime_ok := fun p => negb (memz p (denied w));
      kv_pids := map kpid (table w);
      kv_btime := btime w |}.
 
 Definition world0 : world :=
-  {| table := []; hist := []; nextinc := 0; btime := 1500000000; ms := mstate0; ginc := [] |}.
+  {| table := []; hist := []; nextinc := 0; btime := 1500000000; ms := mstate0; ginc := []; denied := [] |}.
 
 (* ---------------------------------------------------------------- ghost notions *)
 (* the incarnation is still in the process table (zombie included) *)
@@ -59,6 +62,13 @@ Definition obj_pid (w : world) (o : nat) : Z :=
   match nth_error (objs (ms w)) o with Some x => opid x | None => -1 end.
 Definition has_obj (w : world) (o : nat) : bool :=
   match nth_error (objs (ms w)) o with Some _ => true | None => false end.
+(* an object built for an existing process while its stat file could not be read: it has no identity
+   (_ident = (pid, None)) and psutil cannot tell its process from a later owner of the PID *)
+Definition no_identity (w : world) (o : nat) : bool :=
+  match nth_error (objs (ms w)) o with
+  | Some x => match ostart x with None => 0 <=? nth o (ginc w) (-1) | Some _ => false end
+  | None => false
+  end.
 
 (* ---------------------------------------------------------------- kernel events *)
 Definition set_zomb (k : kproc) : kproc :=
@@ -74,19 +84,25 @@ Definition kstep (w : world) (k : kev) : world :=
     {| table := table w ++ [{| kpid := p; kinc := nextinc w; kstart := s; kppid := pp; kzomb := false;
                                kcomm := cm; knthr := 1 |}];
        hist := (nextinc w, p, s) :: hist w; nextinc := nextinc w + 1; btime := btime w;
-       ms := ms w; ginc := ginc w |}
+       ms := ms w; ginc := ginc w; denied := denied w |}
   | SpawnThread p =>
     {| table := map (fun k => if kpid k =? p then add_thread k else k) (table w);
-       hist := hist w; nextinc := nextinc w; btime := btime w; ms := ms w; ginc := ginc w |}
+       hist := hist w; nextinc := nextinc w; btime := btime w; ms := ms w; ginc := ginc w; denied := denied w |}
   | Exit p =>
     {| table := map (fun k => if kpid k =? p then set_zomb k else k) (table w);
-       hist := hist w; nextinc := nextinc w; btime := btime w; ms := ms w; ginc := ginc w |}
+       hist := hist w; nextinc := nextinc w; btime := btime w; ms := ms w; ginc := ginc w; denied := denied w |}
   | Reap p =>
     {| table := filter (fun k => negb (kpid k =? p)) (table w);
-       hist := hist w; nextinc := nextinc w; btime := btime w; ms := ms w; ginc := ginc w |}
+       hist := hist w; nextinc := nextinc w; btime := btime w; ms := ms w; ginc := ginc w; denied := denied w |}
   | ClockStep d =>
     {| table := table w; hist := hist w; nextinc := nextinc w; btime := btime w + d;
-       ms := ms w; ginc := ginc w |}
+       ms := ms w; ginc := ginc w; denied := denied w |}
+  | Deny p =>
+    {| table := table w; hist := hist w; nextinc := nextinc w; btime := btime w;
+       ms := ms w; ginc := ginc w; denied := p :: denied w |}
+  | Allow p =>
+    {| table := table w; hist := hist w; nextinc := nextinc w; btime := btime w;
+       ms := ms w; ginc := ginc w; denied := filter (fun q => negb (q =? p)) (denied w) |}
   end.
 
 (* a history is well formed when: a PID is given only when free, PIDs fit a pid_t, and two
@@ -97,6 +113,9 @@ Definition wf_kev (w : world) (k : kev) : bool :=
     (0 <=? p) && (p <? PID_MAX) && (0 <=? s)
     && match lookup (table w) p with None => true | Some _ => false end
     && forallb (fun e => match e with (_, p', s') => negb ((p' =? p) && (s' =? s)) end) (hist w)
+  (* the theorems over well-formed histories are for a kernel that lets psutil read /proc/<pid>/stat; what
+     holds when it does not (objects without identity, no reuse verdict) is in Proc/ProofsPure.v *)
+  | Deny _ => false
   | _ => true
   end.
 
@@ -113,7 +132,7 @@ Definition ghost_of (w : world) (y : pobj) : Z :=
 Definition cstep (w : world) (c : call) : world * outcome res * list (sysc * option Z) :=
   let '(m1, r, scs) := mcall (view_of w) (ms w) c in
   ({| table := table w; hist := hist w; nextinc := nextinc w; btime := btime w; ms := m1;
-      ginc := ginc w ++ map (ghost_of w) (skipn (length (objs (ms w))) (objs m1)) |},
+      ginc := ginc w ++ map (ghost_of w) (skipn (length (objs (ms w))) (objs m1)); denied := denied w |},
    r, map (tag w) scs).
 
 Definition step (w : world) (e : ev) : world * outcome res * list (sysc * option Z) :=
@@ -183,17 +202,21 @@ Definition spec_call (w : world) (c : call) : option (list (outcome res * list (
     Some [ (if pid <? 0 then Exc ValueError
             else if (pid <? PID_MAX) && (match owner w pid with Some _ => true | None => false end)
                  then Val (RObj (length (ginc w))) else Exc NoSuchProcess, []) ]
+  (* no demand where psutil cannot know: the object has no identity, or the stat file of the PID is unreadable now *)
   | IsRunning o =>
-    if has_obj w o then Some [ (Val (RBool (alive w (g_inc w o))), []) ] else None
+    if has_obj w o && negb (no_identity w o) && negb (memz (g_pid w o) (denied w))
+    then Some [ (Val (RBool (alive w (g_inc w o))), []) ] else None
   (* two objects neither of which was built for a process (Popen, child gone): the property text is silent *)
   | EqC a b =>
     if has_obj w a && has_obj w b && ((0 <=? g_inc w a) || (0 <=? g_inc w b))
+       && negb (no_identity w a) && negb (no_identity w b)
     then Some [ (Val (RBool (g_inc w a =? g_inc w b)), []) ] else None
   | HashEq a b =>
     if has_obj w a && has_obj w b && ((0 <=? g_inc w a) || (0 <=? g_inc w b))
+       && negb (no_identity w a) && negb (no_identity w b)
     then Some [ (Val (RHash (g_inc w a =? g_inc w b) true), []) ] else None
   | Set_ o s =>
-    if has_obj w o then
+    if has_obj w o && negb (no_identity w o) && negb (memz (g_pid w o) (denied w)) then
       let p := g_pid w o in
       if alive w (g_inc w o) then
         Some [ if valid_args p s then (Val RNone, [(intended p s, g_inc w o)]) else (Exc ValueError, []) ]
